@@ -402,7 +402,7 @@ func (w *World) loopHead(fr *Frame, st *State, h *ssa.BasicBlock, k int) {
 	}
 	for _, inv := range ls.Invariants {
 		env := w.contractEnv(fr, st, fr.entry)
-		w.sc.assume(implies(st.cond, w.evalBool(env, inv.Expr)))
+		w.sc.assume(implies(st.cond, w.evalBool(env.assuming(), inv.Expr)))
 		w.noteQuantFacts(st.cond, env, inv.Expr)
 	}
 	if fr.loopHeads == nil {
